@@ -3,7 +3,7 @@ import re
 
 from sa import mir, tables, asyncs, affine
 from sa.mir import backslice, AnchorMissing
-from rules import C01, C03, C09
+from rules import C01, C03, C09, C10
 
 TITLE = ("C04: order of the two device writes of a blob (data, then the index page that makes it visible), index update only after successful writes, "
          "tombstones logged in the batch's io task, acknowledgement only on completion, recovery tables, reclaim order.")
@@ -111,4 +111,7 @@ def run(chk, F):
     chk.run_rule("C04.seq-restore", "recovery restarts the sequence counter strictly above every recovered entry and tombstone", 4, C01.seq_restore, F)
     chk.run_rule("C04.blob-index", "a damaged blob index ends the scan of the block", 3, C03.blob_index, F)
     chk.run_rule("C04.recover-mode", "recover mode table on scanner error", 3, C03.recover_mode, F)
+    chk.run_rule("C04.tombstone-tail", "the tombstone log's recovered append position depends on partition, page and slot of the newest tombstone", 3, C10.tail_position, F)
+    chk.run_rule("C04.tombstone-slot", "every branch computing the newest tombstone's slot is affine-equal to offset / SERIALIZED_LEN", 2, C10.slot_of_offset, F)
+    chk.run_rule("C04.tombstone-append", "append writes at the tail, advances it, flushes on page change and before returning", 6, C10.append, F)
     chk.run_rule("C04.reclaim-order", "reclaim: index entries removed, block cleaned (first page zeroed), then released", 4, C09.release_raii, F)
